@@ -94,7 +94,7 @@ def generate(rng, tier):
         cand = (["grav"] if p["grav"] else []) + (["rt"] if p["rt_vars"] else []) + (["part"] if p["part"] else []) + (["sink"] if p["sink"] else [])
         if cand:
             absent = [rng.choice(cand)]
-    return {"world": p, "select": sel, "absent": absent}
+    return {"world": p, "select": sel, "absent": absent, "warm": rng.random() < 0.25}
 
 
 def describe(case):
@@ -174,6 +174,13 @@ def execute(case, stats):
             if viol:
                 return res
         select = to_select(sel)
+        if case.get("warm") and select is not None:
+            # the caller's select object (list / dict with inner lists) was already used for a load by another dataset
+            stats.inc("probe.select_object_used_by_an_earlier_load")
+            try:
+                disk.load(select=select)
+            except Exception:
+                pass  # the judged load below reports
         try:
             seam_s = FsSeam()
             sub, _ = disk.load(seam=seam_s, **({"select": select} if select is not None else {}))
@@ -289,12 +296,14 @@ def measure(case):
     ssize = 0 if s["form"] == "none" else len(core.dumps(s))
     npart = sum(p["part"]["counts"]) if p["part"] else 0
     return (p["ncpu"], p["levelmax"], p["ndim"], len(p["hydro_vars"]), int(bool(p["grav"])) + int(bool(p["rt_vars"])) + int(p["part"] is not None) + int(p["sink"] is not None),
-            ssize, len(case["absent"]), p["nboundary"], p["maxcells"], npart, int(p["units"] != [1.0, 1.0, 1.0]), int(p["ghost_p"] * 10))
+            ssize, len(case["absent"]), p["nboundary"], p["maxcells"], npart, int(p["units"] != [1.0, 1.0, 1.0]), int(p["ghost_p"] * 10), int(bool(case.get("warm"))))
 
 
 def reductions(case, viol):
     p = case["world"]
     s = case["select"]
+    if case.get("warm"):
+        yield dict(case, warm=False)
     used = set()
     if s["form"] == "dict":
         for v in s["groups"].values():
